@@ -241,7 +241,9 @@ def prStep (m : PrSt) : Item → PrSt
                | some po => if blk.any (fun x => decide (po ≤ x.off)) then none else some po
                | none => none }
   | .ob (.procRet .defer) => { m with pending := true }
-  | .ob (.procRet (.err k _)) => if k == .cancelled then m else { m with halted := true, parked := none }
+  -- a processor that raises (whatever the class: CancelledError is swallowed only while `_stopping`, and then
+  -- `stopReturned` follows and the next `start` clears `halted`) is passed on: the consumer is halted
+  | .ob (.procRet (.err _ _)) => { m with halted := true, parked := none }
   | .ob .procCancel => { m with pending := false, parked := none }
   | .ev .procOk => if m.parked.isSome && m.running && !m.shut && !m.halted then { m with pending := false, expect := true } else { m with pending := false }
   | .ev (.procErr _ _) => { m with pending := false, halted := true, parked := none }
